@@ -36,13 +36,16 @@ var (
 	errCont   = errors.New("continuable ingester error")
 	errFatal1 = errors.New("fatal ingester error one")
 	errFatal2 = errors.New("fatal ingester error two")
+	// a fatal error whose cause chain holds a per-record failure ("giving up after N failed records: ...")
+	errFatalWrap = fmt.Errorf("giving up after 2 failed records, the last one: %w", errs.ErrTransformFailed("record 2 is bad"))
 )
 
 // answer symbols: A B = records, C = continuable error, F G = fatal errors, E = EOF,
 // X = record bytes together with a fatal error, Y = record bytes together with a continuable error,
+// H = a fatal error that WRAPS a per-record failure (still fatal: the ingester says so),
 // P = the ingester panics (a caller's custom_func or handler can): the panic may pass through Read - then
 // nothing more is asked of that Transform - but if Read does return, what it returns is held to the contract.
-const c01Answers = "ABCFGEXYP"
+const c01Answers = "ABCFGHEXYP"
 
 type scriptIngester struct {
 	script string
@@ -73,6 +76,8 @@ func (s *scriptIngester) Read() (schemahandler.RawRecord, []byte, error) {
 		return nil, nil, errFatal1
 	case 'G':
 		return nil, nil, errFatal2
+	case 'H':
+		return nil, nil, errFatalWrap
 	case 'X':
 		r, b := rec("X")
 		return r, b, errFatal1
@@ -183,8 +188,8 @@ func c01RunE1(cs c01E1Case) (sig, detail string, reads []string, states []string
 					terminal = err
 				}
 				lastErr = err
-			case 'F', 'G', 'X', 'E':
-				want := map[byte]error{'F': errFatal1, 'G': errFatal2, 'X': errFatal1, 'E': io.EOF}[a]
+			case 'F', 'G', 'H', 'X', 'E':
+				want := map[byte]error{'F': errFatal1, 'G': errFatal2, 'H': errFatalWrap, 'X': errFatal1, 'E': io.EOF}[a]
 				if err != want {
 					return bad("terminal-error-altered", fmt.Sprintf("got %v want %v", err, want), i)
 				}
@@ -268,8 +273,27 @@ func c01RunE2(schema omniparser.Schema, cs c01E2Case) (sig, detail string, nread
 		var terminal error
 		after := 0
 		var trace []string
+		// every record a Read has returned is the caller's: later Reads must leave its bytes alone
+		var kept [][]byte
+		var keptCopy []string
+		unchanged := func() bool {
+			for i, k := range kept {
+				if string(k) != keptCopy[i] {
+					res.sig, res.detail, _, _ = bad("returned-record-bytes-changed-by-a-later-read", fmt.Sprintf("record %d was %s when Read returned it, the same slice holds %q after %d Reads", i, keptCopy[i], k, nreads+1))
+					return false
+				}
+			}
+			return true
+		}
 		for nreads = 0; nreads < 4*len(cs.Input)+16; nreads++ {
 			b, err := tr.Read()
+			if err == nil && b != nil {
+				kept = append(kept, b)
+				keptCopy = append(keptCopy, string(b))
+			}
+			if !unchanged() {
+				return
+			}
 			st := hx.Classify(b, err)
 			trace = append(trace, st.Kind)
 			if terminal != nil {
@@ -352,7 +376,7 @@ func init() {
 			"E1 assumes a well-behaved ingester in the sense of the interface documentation, except that it may return bytes together with an error",
 			"E2 inputs are token strings, not all byte strings; panics and non-termination are C03's subject and are not double-reported here",
 		},
-		BudgetQuick: 100, BudgetThorough: 1500,
+		BudgetQuick: 300, BudgetThorough: 1500,
 		Run: func(c *core.Ctx) {
 			// ---- E1 ----
 			ansLen, histLen := 4, 7
